@@ -43,7 +43,7 @@ for sw in (False, True):
                                                                 ROT("k2", "k2", "cur", "k3", "e1", "n1")], sw=sw)
 def FR(t, ka, kb, e="e1", be="inmem"): return dict(op="FetchRace", t=t, ka=ka, kb=kb, e=e, be=be)
 # overlapping fetches presenting the same token: known finding KF-C06-1 on the in-memory back end; the file back end refuses the loser
-beh("kf_c06_race", ["C06"], [T("t1", "s1"), FR("t1", "k1", "k2"), F("k3", "e1", "t1"), T("t2"), FR("t2", "k3", "k1"), FR("t2", "k3", "k2")])
+beh("kf_c06_race", ["C06", "C01"], [T("t1", "s1"), FR("t1", "k1", "k2"), F("k3", "e1", "t1"), T("t2"), FR("t2", "k3", "k1"), FR("t2", "k3", "k2")])
 beh("kf_c06_racew", ["C06"], [T("t1"), FR("t1", "k2", "k1", "e2")], sw=True)
 for sw in (False, True):
     beh("f06_race_file" + ("w" if sw else ""), ["C06", "C01"], [T("t1", "s1"), FR("t1", "k1", "k2", be="file"), F("k3", "e1", "t1"), F("k1", "e1", "t1"), T("t2"), F("k3", "e2", "t2", "zero"), F("k3", "e2", "t2", "neg"),
@@ -126,6 +126,13 @@ beh("f01_selfinfo", ["C01"], [F("k1", "e1", "n1", selfinfo=True), F("k1", "e1", 
 for sw in (False, True):
     beh("f06_whole" + ("w" if sw else ""), ["C06"], [T("t1", "s1"), AGE, T("t2"), dict(op="TransplantWhole", t="t1", t2="t2"), F("k1", "e1", "t1", "mid"), F("k1", "e1", "t1"),
                                                  F("k2", "e1", "t2", "mid"), F("k3", "e1", "t2")], sw=sw)
+def CR(flow="plain", again=False): return dict(op="CreateRequest", k="fresh", e="fresh", n="fresh", s="none", flow=flow, again=again)
+# requests a node creates, also a second one from the same credentials and in the wrapper (KMS) flow: each valid from ITS creation for the documented lifetime
+beh("f03_created", ["C03"], [CR(), CR("plain", True), CR("wrap"), CR("wrap", True), CR("wrap", True)])
+beh("f03_named_prev", ["C03"], [SUB(api, "signedByNamedPrev", prime=p) for api in ("authorize", "fetch") for p in (False, True)] + [A("k1", "e1", "n1"), SUB("fetch", "signedByNamedPrev", prime=True)])
+# the store-once back end looks records up by node id ITSELF: removed records must be gone from that lookup too
+beh("f05_storeonce_native_nid", ["C05"], [A("k1", "e1", "n1"), A("k2", "e1", "n2"), NID("k1"), NID("k2"), G("k1", "k1", "N1"), R("k1"), G("k1", "k1", "N1"), G("k2", "k1", "N1"), G("k2", "k2", "N1"), R("k2"), G("k2", "k2", "N1"),
+                                          G("kx", "k2", "N1", hasState=True, ssig="k2")], nidl=True, so=True)
 beh("f03_structured", ["C03"], [SUB(api, m, prime=p) for m in ["appendField22", "appendUnknownField", "noNotAfter", "noCertType", "noEncType"] for api in ("authorize", "fetch") for p in (False, True)])
 beh("f05_kx_request", ["C05"], [A("k1", "e1", "n1"), A("k2", "e1", "n1"), NID("k1"), NID("k2"), G("kx", "k1", nid="N1", hasState=True, ssig="kx"), G("kx", "k1", nid="N1"),
                                 G("kx", "kx", nid="N1"), G("kx", "kx"), G("k3", "k3", nid="N1"), G("kx", "k2", nid="N1", hasState=True, ssig="k2", order=("k2", "k1", "k3")),
